@@ -25,7 +25,8 @@ INTERFACE
                              params=None, objects=(), units_mode=None, fixed=None,
                              backend_names=('be', 'backend', 'math', 'np', 'numpy'),
                              extra_funcs=None, extra_calls=None, cond_hook=None,
-                             split_tuple=False, inline_lets=False, doc=None)
+                             split_tuple=False, inline_lets=False, doc=None,
+                             extra_skipped=None, allow_decorators=())
         # d is a `LeanDef` (a `str` subclass: the Lean source of the def(s), ready to be concatenated) with
         #   d.name        Lean name of the value function
         #   d.args        [lean argument names in order]  (all of type α)
@@ -37,6 +38,10 @@ INTERFACE
         #   d.warn_name   name of the Boolean `<lean_name>Warns` function or None; d.warn_msgs_name the
         #                 `<lean_name>WarnMsgs : List String` function (messages in source order)
         #   d.warn_classes  binders of these two (adds [LT α] [DecidableLT α] / [LE α] [DecidableLE α])
+        #   d.unit_args   [(lean argument, python text)] of the object attributes (`units.Kelvin`, `constants.pi`, `self.Ea`),
+        #                 SORTED by Lean argument name (never by order of the source lines) -- bind them BY NAME in drivers and
+        #                 theorems:  `waterDensityU T (units_Kelvin := K) (units_meter := m) (units_kilogram := kg)`
+        #   d.sig_name / d.sig   the SIGNATURE RECORD `<lean_name>Sig : List (String × String)` (see below)
     text = P.wrap_module([ctext, d, ...], source='chempy/kinetics/integrated.py')   # header + namespace ChemModel.Gen
 
   params      python parameter names that become Lean arguments, in this order.  Default: the parameters
@@ -47,7 +52,7 @@ INTERFACE
               'just_return_a': False, 'n': 2}.
   objects     names of parameters that are PASSED attribute-objects (`units`, `constants`): `units is None` is
               then False and each `units.<attr>` becomes an extra Lean argument `units_<attr>` (appended after
-              `params` in order of first use).  Not listed => the parameter is None.
+              `params`, SORTED by name; see d.unit_args).  Not listed => the parameter is None.
               `units_mode=True` is shorthand for objects=('units',).
   const_env   module constants from translate_module_constants (or {name: number | Fraction | tuple}).
   extra_funcs {python attr/function name: (lean function, class name or None)}, e.g.
@@ -58,8 +63,34 @@ INTERFACE
               translator cannot decide statically (None = no opinion => ExtractError).
   inline_lets substitute every local instead of emitting `let` (proofs are sometimes easier on `let`-free bodies).
 
+  extra_skipped  list of strings (e.g. ast.dump of code YOUR extractor discarded before calling: `try:` bodies, inlined helpers);
+              hashed into the @skipped entry of the signature record.
+  allow_decorators  decorator source texts that are acceptable (default none: a decorated function is an ExtractError).
+
+WHAT THE TRANSLATOR REFUSES ALTHOUGH IT IS VALID PYTHON (edits that used to be invisible)
+  * the function name is defined more than once anywhere in the tree, or also bound at module level by an assignment / import
+    / `global` (find_unique_def -- use `P.find_unique_def` instead of `common.find_def` in your extractor);
+  * a decorator on the function; builtin `any(...)` in a range test (TypeError on scalars; `_any` / `np.any` are accepted);
+  * translate_module_constants: a constant that is bound more than once, augmented (`B += 1`), deleted, imported or declared
+    `global` is not a constant: left out with names=None (using it => "unknown name"), ExtractError when asked for by name.
+
+SIGNATURE RECORD  (one per translate_function call, emitted after the defs)
+    def <lean_name>Sig : List (String × String) :=
+      [(param, default source text | "<required>") ... in source order,
+       ("@decorators", ..), ("@args", "<lean argument list>"), ("@fixed", ..), ("@objects", ..),
+       ("@warn", "<tests guarding the call, as written> => warnings.warn(<all arguments>) ;; ..."),
+       ("@backend", "get_backend(backend) ; be = get_backend(backend) ; be.exp ; math.log ; atanh = be.atanh if ... ; ..."),
+       ("@skipped", "sha1:<16 hex> (<n>)")]     -- branches not taken, code after a taken return, untaken IfExp arms, extra_skipped
+  The value functions are specialisations (warn=True, given arguments, one backend-independent text); everything the
+  specialisation cannot see is in this record: a changed default (`warn=False`, `T0`, `backend=math` -> None, `n=1` -> 2), a dropped
+  `warn and`, `_any` -> `np.any`, an extra argument of warnings.warn, `be.exp` -> `np.exp`, `be = get_backend("sympy")`, an edit inside a
+  branch that is not taken.  USERS: state  `theorem <x>Sig_guard : <x>Sig = [ ... ] := by decide`  in Props/Cxx.lean (suffix `_guard`).
+  In the range checks themselves the gate and the reduction stay visible: `PyFn.warnGate && (PyFn.anyS (decide (t < ..)) || ..)`
+  (`Basic/PyFn.lean`: reducible identities; `simp only [PyFn.warnGate, PyFn.anyS, Bool.true_and]` removes them).
+
 ACCEPTED PYTHON SUBSET (everything else => ExtractError with line number)
-  statements  docstring; `x = e`; `a, b = e1, e2`; `a = (e1, e2, ...)` (kept symbolic, items let-bound as a_0..);
+  statements  docstring; `x = e`; `x = y = e` (chained); `x: float = e`; `x op= e` for + - * / **; `assert ...` (ignored);
+              `a, b = e1, e2`; `a = (e1, e2, ...)` (kept symbolic, items let-bound as a_0..);
               `be = get_backend(backend)`; `atanh = be.atanh if hasattr(be, "atanh") else be.arctanh`;
               `if <static test>: ... else: ...` specialised to the branch taken (tests: `x is None`,
               `x is not None`, a static bool such as a defaulted `just_return_a`, `not`, `and`, `or`);
@@ -72,7 +103,8 @@ ACCEPTED PYTHON SUBSET (everything else => ExtractError with line number)
               literal -> `Num.npow x n`; negative int literal -> `1 / Num.npow x n`; any other exponent ->
               `HasRPow.rpow x y`; tuple/list literals and indexing with a constant (possibly negative) index;
               `be.exp/log/sqrt/tanh/atanh/arctanh(x)` for be in backend_names or obtained from get_backend;
-              `be.cos(0)` -> 1; `be.pi ** 0` -> 1; `_any(c)`, `np.any(c)`, `any(c)` inside warn tests -> c;
+              `abs(x)`, `be.abs(x)`, `math.fabs(x)` -> `HasAbs.abs x` (class in Basic/PyFn.lean; instances Float, Rat, ℝ);
+              `be.cos(0)` -> 1; `be.pi ** 0` -> 1; `_any(c)`, `np.any(c)` inside warn tests -> `PyFn.anyS c`;
               comparisons `< <= > >=` (also chained) inside warn tests -> `decide (a < b)`.
   Every Lean sub-expression is fully parenthesised following the Python AST, so operator precedence and
   associativity are those of Python (`-a * b` is `((-a) * b)`).
@@ -95,7 +127,7 @@ SELF-TEST   cd /verif/tools && python3 -m extract.pyfn2lean --selftest [--real]
             (translates synthetic functions covering the subset and, if present, /repo's integrated.py, and
             compiles + evaluates the result at Float and Rat with `lake env lean`; --real also at ℝ / Mathlib)
 """
-import ast, os, re, subprocess, sys, tempfile
+import ast, hashlib, os, re, subprocess, sys, tempfile
 from fractions import Fraction
 
 try:
@@ -112,8 +144,10 @@ FUNCS = {
     'tanh': ('HasTanh.tanh', 'HasTanh'),
     'atanh': ('HasAtanh.atanh', 'HasAtanh'),
     'arctanh': ('HasAtanh.atanh', 'HasAtanh'),
+    'abs': ('HasAbs.abs', 'HasAbs'),          # builtin abs(x), be.abs(x), np.abs(x)
+    'fabs': ('HasAbs.abs', 'HasAbs'),         # math.fabs(x)
 }
-CLASS_ORDER = ['HasExp', 'HasLog', 'HasSqrt', 'HasTanh', 'HasAtanh', 'HasRPow']
+CLASS_ORDER = ['HasExp', 'HasLog', 'HasSqrt', 'HasTanh', 'HasAtanh', 'HasRPow', 'HasAbs']
 LEAN_KEYWORDS = set('''at from fun in do then else if let have show by end open namespace section def theorem
  lemma example instance class structure inductive where with match universe variable axiom import export
  private protected noncomputable partial unsafe mutual macro syntax notation infix infixl infixr prefix postfix
@@ -138,8 +172,9 @@ class NoneV:
 
 
 class BoolV:
-    def __init__(self, b):
+    def __init__(self, b, gate=False):
         self.b = bool(b)
+        self.gate = gate      # the `warn` parameter: kept visible as `PyFn.warnGate` in the generated range checks
 
 
 class StrV:
@@ -277,6 +312,9 @@ class _Tr:
         self.obj_args = []        # [(lean arg, python text)]
         self.warns = []           # [(n_lets, cond text, message)]
         self.used = set()
+        self.skipped = []         # ast.dump of every statement / expression the translation did not visit
+        self.warn_src = []        # source-level record of every warnings.warn call with its guard chain
+        self.backend_src = []     # how the backend is obtained and which of its attributes are used (source text, first use)
 
     def err(self, node, msg):
         raise ExtractError('line %s: %s: `%s`' % (getattr(node, 'lineno', '?'), msg,
@@ -308,8 +346,10 @@ class _Tr:
                 return Fn('get_backend')
             if n.id == 'hasattr':
                 return Fn('hasattr')
-            if n.id in ('_any', 'any'):
+            if n.id == '_any':
                 return Fn('any')
+            if n.id == 'any':
+                self.err(n, 'builtin any() of a scalar comparison raises TypeError (use _any / numpy.any)')
             if n.id in self.extra_calls:
                 return Fn(('call', self.extra_calls[n.id]))
             if n.id in self.funcs:      # `from math import exp`
@@ -318,6 +358,7 @@ class _Tr:
         if isinstance(n, ast.Attribute):
             base = self.ev(n.value)
             if isinstance(base, Backend):
+                self.note_backend(ast.unparse(n))
                 if n.attr in self.funcs:
                     return Fn(n.attr)
                 if n.attr == 'cos':
@@ -372,8 +413,10 @@ class _Tr:
         if isinstance(n, ast.IfExp):
             t = self.static(n.test)
             if t is True:
+                self.skip([n.orelse])
                 return self.ev(n.body)
             if t is False:
+                self.skip([n.body])
                 return self.ev(n.orelse)
             # alias idiom: f = be.atanh if hasattr(be, "atanh") else be.arctanh
             if (isinstance(n.test, ast.Call) and isinstance(self.try_ev(n.test.func), Fn)
@@ -386,6 +429,14 @@ class _Tr:
         if isinstance(n, ast.Call):
             return self.call(n)
         self.err(n, 'expression outside the subset')
+
+    def note_backend(self, text):
+        if text not in self.backend_src:
+            self.backend_src.append(text)
+
+    def skip(self, nodes):
+        for x in nodes:
+            self.skipped.append(ast.dump(x))
 
     def try_ev(self, n):
         try:
@@ -424,6 +475,7 @@ class _Tr:
         if n.keywords:
             self.err(n, 'keyword arguments are outside the subset')
         if f.kind == 'get_backend':
+            self.note_backend(ast.unparse(n))
             return Backend()
         if f.kind == 'cos':
             a = n.args
@@ -476,10 +528,22 @@ class _Tr:
             return False if all(r is False for r in rs) else None
         return None
 
+    def has_gate(self, n):
+        for x in ast.walk(n):
+            if isinstance(x, ast.Name):
+                v = self.env.get(x.id)
+                if isinstance(v, BoolV) and v.gate and v.b:
+                    return True
+        return False
+
     def cond(self, n):
         """Lean Bool text of a run-time test made of comparisons (statically decided parts folded)"""
+        if isinstance(n, ast.Name):
+            v = self.try_ev(n)
+            if isinstance(v, BoolV) and v.gate:
+                return 'PyFn.warnGate' if v.b else 'false'
         s = self.static(n)
-        if s is not None:
+        if s is not None and not self.has_gate(n):
             return 'true' if s else 'false'
         if isinstance(n, ast.BoolOp):
             parts = [self.cond(v) for v in n.values]
@@ -497,7 +561,8 @@ class _Tr:
         if isinstance(n, ast.Call):
             f = self.try_ev(n.func)
             if isinstance(f, Fn) and f.kind == 'any' and len(n.args) == 1 and not n.keywords:
-                return self.cond(n.args[0])
+                c = self.cond(n.args[0])
+                return c if c in ('true', 'false') else '(PyFn.anyS %s)' % c
             self.err(n, 'test outside the subset')
         if isinstance(n, ast.Compare):
             ops = {ast.Lt: ('<', 'LT'), ast.Gt: ('>', 'LT'), ast.LtE: ('≤', 'LE'), ast.GtE: ('≥', 'LE')}
@@ -534,6 +599,8 @@ class _Tr:
                     items.append(it)
             self.env[name] = Tup(items)
         elif isinstance(v, (Backend, Fn, NoneV, BoolV, Obj)):
+            if isinstance(v, (Backend, Fn)) and getattr(node, 'value', None) is not None:
+                self.note_backend('%s = %s' % (name, ast.unparse(node.value)))
             self.env[name] = v
         else:
             self.err(node, 'cannot bind this value')
@@ -552,24 +619,29 @@ class _Tr:
             return False
         return True
 
-    def warn_tree(self, body, path):
+    def warn_tree(self, body, path, spath=()):
         for st in body:
             if isinstance(st, ast.Pass):
                 continue
             if self.is_warn_call(st):
                 a = st.value.args
                 msg = a[0].value if a and isinstance(a[0], ast.Constant) and isinstance(a[0].value, str) \
-                    else (seg(self.src, a[0]) if a else '')
+                    else (ast.unparse(a[0]) if a else '')
+                extra = [ast.unparse(x) for x in a[1:]] + ['%s=%s' % (k.arg, ast.unparse(k.value)) for k in st.value.keywords]
+                if extra:                       # category, stacklevel, ...: part of the message record
+                    msg = msg + ' [' + ', '.join(extra) + ']'
                 c = [p for p in path if p != 'true']
                 ctext = 'true' if not c else (c[0] if len(c) == 1 else '(' + ' && '.join(c) + ')')
+                self.warn_src.append(' and '.join(spath) + ' => ' + ast.unparse(st.value))
                 if 'false' not in path:
                     self.warns.append((len(self.lets), ctext, msg))
             else:
                 c = self.cond(st.test)
-                self.warn_tree(st.body, path + [c])
+                stext = '(' + ast.unparse(st.test) + ')'
+                self.warn_tree(st.body, path + [c], tuple(spath) + (stext,))
                 if st.orelse:
                     nc = 'false' if c == 'true' else 'true' if c == 'false' else '(!%s)' % c
-                    self.warn_tree(st.orelse, path + [nc])
+                    self.warn_tree(st.orelse, path + [nc], tuple(spath) + ('not ' + stext,))
 
     def block(self, body):
         """returns the returned value if a `return` was executed, else None"""
@@ -578,9 +650,37 @@ class _Tr:
                 continue
             if isinstance(st, ast.Pass):
                 continue
+            if isinstance(st, ast.Assert):
+                continue       # ignored (a failing assert shows up in the correspondence as AssertionError)
+            if isinstance(st, ast.AnnAssign):
+                if st.value is None:
+                    continue
+                if not isinstance(st.target, ast.Name) or not st.simple:
+                    self.err(st, 'annotated assignment target outside the subset')
+                self.bind(st.target.id, self.ev(st.value), st)
+                continue
+            if isinstance(st, ast.AugAssign):
+                ops = {ast.Add: '+', ast.Sub: '-', ast.Mult: '*', ast.Div: '/'}
+                if not isinstance(st.target, ast.Name):
+                    self.err(st, 'augmented assignment target outside the subset')
+                load = ast.copy_location(ast.Name(id=st.target.id, ctx=ast.Load()), st.target)
+                if isinstance(st.op, ast.Pow):
+                    v = self.power(ast.copy_location(ast.BinOp(left=load, op=st.op, right=st.value), st))
+                elif type(st.op) in ops:
+                    v = Sc('(%s %s %s)' % (self.num(load), ops[type(st.op)], self.num(st.value)))
+                else:
+                    self.err(st, 'augmented assignment operator outside the subset')
+                self.bind(st.target.id, v, st)
+                continue
+            if isinstance(st, ast.Assign) and len(st.targets) > 1:
+                # chained assignment `K = m = kg = 1`: the value is evaluated once, targets are bound left to right
+                if not all(isinstance(tg, ast.Name) for tg in st.targets):
+                    self.err(st, 'chained assignment to non-names')
+                v = self.ev(st.value)
+                for tg in st.targets:
+                    self.bind(tg.id, v, st)
+                continue
             if isinstance(st, ast.Assign):
-                if len(st.targets) != 1:
-                    self.err(st, 'chained assignment')
                 tg = st.targets[0]
                 if isinstance(tg, ast.Name):
                     self.bind(tg.id, self.ev(st.value), st)
@@ -613,23 +713,28 @@ class _Tr:
                 continue
             if isinstance(st, ast.If):
                 t = self.static(st.test)
-                if t is None and self.only_warns(st.body) and self.only_warns(st.orelse):
+                has_warn = any(self.is_warn_call(x) for x in ast.walk(st) if isinstance(x, ast.Expr))
+                if has_warn and self.only_warns(st.body) and self.only_warns(st.orelse) and (t is None or self.has_gate(st.test)):
                     self.warn_tree([st], [])
                     continue
                 if t is None and self.cond_hook is not None:
-                    t = self.cond_hook(st.test, seg(self.src, st.test))
+                    t = self.cond_hook(st.test, seg(self.src, st.test) or ast.unparse(st.test))
                 if t is None:
                     self.err(st.test, 'test is neither static nor a pure range check')
                 if t and self.only_warns(st.body) and any(self.is_warn_call(x) or isinstance(x, ast.If) for x in st.body):
-                    self.warn_tree(st.body, [])
+                    self.skip(st.orelse)
+                    self.warn_tree(st.body, [], ('(' + ast.unparse(st.test) + ')',))
                     continue
+                self.skip(st.orelse if t else st.body)       # the branch not taken is hashed into the signature record
                 r = self.block(st.body if t else st.orelse)
                 if r is not None:
+                    self.skip(body[i + 1:])                  # statements after a return that was taken
                     return r
                 continue
             if isinstance(st, ast.Return):
                 if st.value is None:
                     self.err(st, 'bare return')
+                self.skip(body[i + 1:])
                 return self.ev(st.value)
             self.err(st, 'statement outside the subset')
         return None
@@ -639,13 +744,121 @@ def _binders(classes):
     return ' '.join('[%s α]' % c for c in classes)
 
 
+def _module_scope(body):
+    """statements executed at module level (control flow entered, function / class bodies not)"""
+    for st in body:
+        yield st
+        for fld in ('body', 'orelse', 'finalbody'):
+            sub = getattr(st, fld, None)
+            if isinstance(sub, list) and not isinstance(st, (ast.FunctionDef, ast.AsyncFunctionDef, ast.ClassDef)):
+                yield from _module_scope(sub)
+        for h in getattr(st, 'handlers', []) or []:
+            yield from _module_scope(h.body)
+
+
+def _bound_names(st):
+    """names (re)bound by one statement: [(name, kind)]"""
+    out = []
+
+    def tg(t, kind):
+        if isinstance(t, ast.Name):
+            out.append((t.id, kind))
+        elif isinstance(t, (ast.Tuple, ast.List)):
+            for e in t.elts:
+                tg(e, kind)
+        elif isinstance(t, ast.Starred):
+            tg(t.value, kind)
+    if isinstance(st, ast.Assign):
+        for t in st.targets:
+            tg(t, 'assign')
+    elif isinstance(st, ast.AugAssign):
+        tg(st.target, 'augassign')
+    elif isinstance(st, ast.AnnAssign) and st.value is not None:
+        tg(st.target, 'assign')
+    elif isinstance(st, (ast.For, ast.AsyncFor)):
+        tg(st.target, 'for')
+    elif isinstance(st, (ast.With, ast.AsyncWith)):
+        for it in st.items:
+            if it.optional_vars is not None:
+                tg(it.optional_vars, 'with')
+    elif isinstance(st, (ast.Import, ast.ImportFrom)):
+        for a in st.names:
+            out.append(((a.asname or a.name).split('.')[0], 'import'))
+    elif isinstance(st, (ast.FunctionDef, ast.AsyncFunctionDef, ast.ClassDef)):
+        out.append((st.name, 'def'))
+    elif isinstance(st, ast.Delete):
+        for t in st.targets:
+            tg(t, 'del')
+    return out
+
+
+def module_bindings(tree):
+    """{name: [kinds]} of every module-level binding, plus `global x` declarations inside functions"""
+    b = {}
+    for st in _module_scope(tree.body):
+        for nm, kind in _bound_names(st):
+            b.setdefault(nm, []).append(kind)
+    for n in ast.walk(tree):
+        if isinstance(n, ast.Global):
+            for nm in n.names:
+                b.setdefault(nm, []).append('global')
+    return b
+
+
+def find_unique_def(tree, name):
+    """the ONE `def`/`class` called `name` anywhere in `tree`.  ExtractError when there is none, when there are
+    several (Python uses the last one executed, a reader the first), or when the name is also bound in another way at module
+    level (assignment, import, `global`)."""
+    found = [n for n in ast.walk(tree) if isinstance(n, (ast.FunctionDef, ast.AsyncFunctionDef, ast.ClassDef)) and n.name == name]
+    if not found:
+        raise ExtractError('no def %s' % name)
+    if len(found) > 1:
+        raise ExtractError('%s is defined %d times (lines %s): which one Python uses depends on execution order'
+                           % (name, len(found), ', '.join(str(n.lineno) for n in found)))
+    kinds = module_bindings(tree).get(name, [])
+    if found[0] in tree.body or any(found[0] is st for st in _module_scope(tree.body)):
+        other = [k for k in kinds if k != 'def']
+        if other:
+            raise ExtractError('%s is also bound at module level by: %s' % (name, ', '.join(other)))
+    return found[0]
+
+
+def _sig_record(f, src, tr, largs, fixed, objects, extra_skipped):
+    """[(key, text)]: every parameter with the source text of its default ('<required>' if none), then
+    @decorators, @args (the Lean argument list), @fixed/@objects (the specialisation), @warn (every warnings.warn call with the
+    source text of the tests guarding it), @backend (`be = get_backend(backend)`, `be.exp`, `math.log`, the atanh alias ...: the
+    Lean text is the same for every backend spelling, the record is not), @skipped (sha1 over the statements / expressions that this translation did not visit:
+    branches not taken, code after a return, plus what the calling extractor reports as discarded)."""
+    a = f.args
+    rec = []
+    pos = a.posonlyargs + a.args
+    nd = len(a.defaults)
+    for i, x in enumerate(pos):
+        j = i - (len(pos) - nd)
+        rec.append((x.arg, ast.unparse(a.defaults[j]) if j >= 0 else '<required>'))
+    for x, d in zip(a.kwonlyargs, a.kw_defaults):
+        rec.append((x.arg, ast.unparse(d) if d is not None else '<required>'))
+    rec.append(('@decorators', ', '.join(ast.unparse(d) for d in f.decorator_list)))
+    rec.append(('@args', ' '.join(largs)))
+    rec.append(('@fixed', ', '.join('%s=%r' % (k, fixed[k]) for k in sorted(fixed))))
+    rec.append(('@objects', ', '.join(sorted(objects))))
+    rec.append(('@warn', ' ;; '.join(tr.warn_src)))
+    rec.append(('@backend', ' ; '.join(tr.backend_src)))
+    sk = list(tr.skipped) + [str(x) for x in (extra_skipped or [])]
+    rec.append(('@skipped', ('sha1:' + hashlib.sha1('\n'.join(sk).encode()).hexdigest()[:16] + ' (%d)' % len(sk)) if sk else ''))
+    return rec
+
+
 def translate_function(src, tree, funcname, *, lean_name=None, const_env=None, params=None, objects=(),
                        units_mode=None, fixed=None, backend_names=('be', 'backend', 'math', 'np', 'numpy'),
                        extra_funcs=None, extra_calls=None, cond_hook=None, split_tuple=False,
-                       inline_lets=False, doc=None):
-    f = find_def(tree, funcname)
+                       inline_lets=False, doc=None, extra_skipped=None, allow_decorators=()):
+    f = find_unique_def(tree, funcname)
     if not isinstance(f, ast.FunctionDef):
         raise ExtractError('%s is not a function' % funcname)
+    decos = [ast.unparse(d) for d in f.decorator_list]
+    if any(d not in allow_decorators for d in decos):
+        raise ExtractError('%s is decorated (%s): the decorated object is not the function body' % (funcname, ', '.join(decos)))
     a = f.args
     if a.vararg or a.kwarg or a.posonlyargs:
         raise ExtractError('%s: *args/**kwargs/positional-only parameters are outside the subset' % funcname)
@@ -683,7 +896,7 @@ def translate_function(src, tree, funcname, *, lean_name=None, const_env=None, p
         elif p in fixed:
             tr.env[p] = const_to_val(fixed[p]) if fixed[p] is not None else NoneV()
         elif p == 'warn':
-            tr.env[p] = BoolV(True)
+            tr.env[p] = BoolV(True, gate=True)      # `…Warns` describes warn=True; the default is in the signature record
         elif p not in defaults:
             raise ExtractError('%s: parameter %s has no default and is not an argument' % (funcname, p))
         elif p in tr.backend_names and isinstance(defaults[p], ast.Constant) and defaults[p].value is None:
@@ -701,8 +914,9 @@ def translate_function(src, tree, funcname, *, lean_name=None, const_env=None, p
     ret = tr.block(f.body)
     if ret is None:
         raise ExtractError('%s: no return statement reached' % funcname)
-    largs += [x for x, _ in tr.obj_args]
-    pyargs += [y for _, y in tr.obj_args]
+    unit_args = sorted(tr.obj_args)          # deterministic: by Lean argument name, NOT by first use in the source
+    largs += [x for x, _ in unit_args]
+    pyargs += [y for _, y in unit_args]
     classes = ARITH + [c for c in CLASS_ORDER if c in tr.classes] + sorted(c for c in tr.classes if c not in CLASS_ORDER)
     argtxt = (' (%s : α)' % ' '.join(largs)) if largs else ''
     head = '{α : Type} %s%s' % (_binders(classes), argtxt)
@@ -755,7 +969,16 @@ def translate_function(src, tree, funcname, *, lean_name=None, const_env=None, p
         out.append('/-- the messages `%s(..., warn=True)` passes to warnings.warn, in order -/\ndef %s %s : List String :=\n%s'
                    % (funcname, msgs_name, whead,
                       body(tr.lets[:nl], ' ++ '.join('(if %s then [%s] else [])' % (c, lean_str(m)) for _, c, m in tr.warns))))
+    sig = _sig_record(f, src, tr, largs, fixed, objects, extra_skipped)
+    sig_name = lean_name + 'Sig'
+    out.append('/-- signature record of `%s` as specialised for `%s`: (parameter, default) pairs in source order, then\n'
+               '@decorators, @args, @fixed, @objects, @warn (guard chain => call of every warnings.warn), @backend (how the backend\n'
+               'module is obtained and which of its attributes are called, as written), @skipped (hash of the code\n'
+               'this specialisation did not visit).  Pin it with a `…_guard` theorem: a changed default, gate or dead branch opens it. -/\n'
+               'def %s : List (String × String) :=\n  [%s]\n'
+               % (funcname, lean_name, sig_name, ',\n   '.join('(%s, %s)' % (lean_str(k), lean_str(v)) for k, v in sig)))
     d = LeanDef('\n'.join(out))
+    d.sig_name, d.sig, d.unit_args = sig_name, sig, unit_args
     d.name, d.names, d.args, d.pyargs, d.classes = lean_name, names, largs, pyargs, classes
     d.n_results, d.warn_name, d.warn_msgs_name, d.warn_classes, d.pyname = nres, warn_name, msgs_name, wclasses, funcname
     return d
@@ -778,16 +1001,28 @@ def translate_module_constants(src, tree, names=None, prefix=''):
             tr.env[name] = v
             found[name] = v
 
+    bindings = module_bindings(tree)
+    rebound = {nm for nm, kinds in bindings.items() if len(kinds) > 1 or kinds[0] != 'assign'}
     for st in tree.body:
-        if isinstance(st, ast.Assign) and len(st.targets) == 1:
-            tg = st.targets[0]
-            if isinstance(tg, ast.Name):
-                try_bind(tg.id, st.value)
-            elif isinstance(tg, ast.Tuple) and isinstance(st.value, (ast.Tuple, ast.List)) and len(tg.elts) == len(st.value.elts):
-                for e, vnode in zip(tg.elts, st.value.elts):
-                    if isinstance(e, ast.Name):
-                        try_bind(e.id, vnode)
+        if isinstance(st, ast.AnnAssign) and st.value is not None and isinstance(st.target, ast.Name):
+            if st.target.id not in rebound:
+                try_bind(st.target.id, st.value)
+        if isinstance(st, ast.Assign):
+            for tg in st.targets:           # also `X = Y = 1.5`
+                if isinstance(tg, ast.Name):
+                    if tg.id not in rebound:
+                        try_bind(tg.id, st.value)
+                elif isinstance(tg, ast.Tuple) and isinstance(st.value, (ast.Tuple, ast.List)) and len(tg.elts) == len(st.value.elts):
+                    for e, vnode in zip(tg.elts, st.value.elts):
+                        if isinstance(e, ast.Name) and e.id not in rebound:
+                            try_bind(e.id, vnode)
+    # a constant that is assigned more than once / augmented / deleted / declared global somewhere is NOT a constant:
+    # it is left out (a function using it then fails with "unknown name"); asked for by name => error
     if names is not None:
+        bad = [n for n in names if n in rebound]
+        if bad:
+            raise ExtractError('module constants bound more than once or modified (%s)'
+                               % '; '.join('%s: %s' % (n, ', '.join(bindings[n])) for n in bad))
         missing = [n for n in names if n not in found]
         if missing:
             raise ExtractError('module constants missing or outside the numeric subset: %s' % ', '.join(missing))
@@ -828,6 +1063,8 @@ def _list_text(v):
 
 
 def wrap_module(parts, source, namespace='ChemModel.Gen', imports=('ChemModel.Basic.Num',), opens=('ChemModel',)):
+    if 'ChemModel.Basic.PyFn' not in imports:
+        imports = tuple(imports) + ('ChemModel.Basic.PyFn',)      # PyFn.warnGate / PyFn.anyS / HasAbs
     out = [HEADER % source]
     out += ['import %s' % i for i in imports]
     out.append('set_option linter.unusedVariables false')
@@ -906,6 +1143,21 @@ def cstr(t, k, r, fv, n=1, backend=None):
 
 def poly(x, y=2):
     return (x ** 3 - y * x + TAB[2]) / (x + 1) + GRID[1][1]
+
+def harmless(x, units=None, warn=True):
+    if units is None:
+        K = m = kg = 1
+    else:
+        m = units.meter
+        K = units.Kelvin
+        kg = units.kilogram
+    assert x is not None
+    t: float = x * K - 3 * K
+    t += 1 * K
+    t *= 2
+    if warn and _any(abs(t) > 10 * K):
+        warnings.warn("far", UserWarning, stacklevel=2)
+    return abs(t) * kg / m
 '''
 
 SELFTEST_BAD = [
@@ -917,6 +1169,12 @@ SELFTEST_BAD = [
     'def f(x):\n    if x > 1:\n        x = 2 * x\n    return x\n',
     'def f(x):\n    return g(x)\n',
     'def f(x):\n    return 1e400j * x\n',
+    'def f(x):\n    return x\ndef f(x):\n    return 2 * x\n',                       # defined twice
+    'import functools\n@functools.lru_cache\ndef f(x):\n    return x\n',          # decorated
+    'def f(x):\n    return x\nf = abs\n',                                        # rebound at module level
+    'def f(x, warn=True):\n    if warn and any(x < 0):\n        warnings.warn("m")\n    return x\n',   # builtin any
+    'B = 2.0\nB += 1\ndef f(x):\n    return B * x\n',                            # modified module constant
+    'B = 2.0\nB = 3.0\ndef f(x):\n    return B * x\n',                           # module constant assigned twice
 ]
 
 
@@ -931,15 +1189,33 @@ def selftest(real=False, repo='/repo'):
     d_cstr = translate_function(SELFTEST_SRC, tree, 'cstr', const_env=cenv)
     d_cstr2 = translate_function(SELFTEST_SRC, tree, 'cstr', lean_name='cstrI', const_env=cenv, inline_lets=True, split_tuple=True, fixed={'n': 2})
     d_poly = translate_function(SELFTEST_SRC, tree, 'poly', const_env=cenv)
+    d_h = translate_function(SELFTEST_SRC, tree, 'harmless', const_env=cenv)
+    d_hu = translate_function(SELFTEST_SRC, tree, 'harmless', lean_name='harmlessU', const_env=cenv, units_mode=True)
+    # unit arguments are sorted by name, not by the order of the source lines; the signature record sees defaults,
+    # the warn gate, the reduction, extra arguments of warnings.warn and the branch not taken
+    assert d_hu.args == ['x', 'units_Kelvin', 'units_kilogram', 'units_meter'], d_hu.args
+    assert [a for a, _ in d_hu.unit_args] == d_hu.args[1:] and d_hu.unit_args[0][1] == 'units.Kelvin'
+    sig = dict(d_h.sig)
+    assert sig['warn'] == 'True' and sig['units'] == 'None' and sig['x'] == '<required>', sig
+    assert "(warn and _any(abs(t) > 10 * K)) => warnings.warn('far', UserWarning, stacklevel=2)" == sig['@warn'], sig['@warn']
+    assert sig['@skipped'].startswith('sha1:') and dict(d_hu.sig)['@skipped'] != sig['@skipped']
+    assert 'PyFn.warnGate && (PyFn.anyS' in d_h and '"far [UserWarning, stacklevel=2]"' in d_h, d_h
+    for old, new in (('warn=True', 'warn=False'), ('if warn and _any(abs', 'if _any(abs'), ('_any(abs(t)', 'np.any(abs(t)'),
+                     ('"far", UserWarning', '"far", DeprecationWarning'), ('K = units.Kelvin', 'K = units.kelvin')):
+        src2 = SELFTEST_SRC.replace(old, new)
+        assert src2 != SELFTEST_SRC
+        d2 = translate_function(src2, ast.parse(src2), 'harmless', const_env=cenv)
+        assert d2.sig != d_h.sig, (old, new)
     assert d_viscu.args == ['T', 'eta20', 'units_centipoise', 'units_kelvin'], d_viscu.args
     assert d_visc.warn_name == 'viscWarns' and d_poly.warn_name is None
     assert 'HasRPow' in d_visc.classes and d_poly.classes == ARITH, (d_visc.classes, d_poly.classes)
     assert d_cstr.n_results == 3 and d_cstr2.names == ['cstrI_0', 'cstrI_1', 'cstrI_2']
     assert '(Num.dec (11709) 4)' in d_visc and '(Num.dec (27315) 2)' in d_visc
-    parts += [d_visc, d_viscu, d_dens, d_cstr, d_cstr2, d_poly]
+    parts += [d_visc, d_viscu, d_dens, d_cstr, d_cstr2, d_poly, d_h, d_hu]
     for bad in SELFTEST_BAD:
         try:
-            translate_function(bad, ast.parse(bad), 'f')
+            btree = ast.parse(bad)
+            translate_function(bad, btree, 'f', const_env=translate_module_constants(bad, btree)[1])
         except ExtractError:
             continue
         raise AssertionError('accepted a function outside the subset:\n' + bad)
@@ -972,6 +1248,8 @@ open SelfTest ChemModel
 #eval [(cstrI_0 (0.5 : Float) 2.0 3.0 0.25).toBits, (cstrI_2 (0.5 : Float) 2.0 3.0 0.25).toBits]
 #eval (TAB : List Rat)
 #eval (GRID : List (List Float))
+#eval (harmless (10 : Rat), harmlessU (10 : Rat) 2 3 5, harmlessWarns (10 : Rat), harmlessWarns (5 : Rat), harmlessWarnMsgs (-9 : Rat))
+#eval harmlessSig.length
 '''
     if have_repo:
         text += '#eval (i_dimerization_irrev (1 : Rat) 2 3)\n#eval (i_binary_irrev_cstr (0.5 : Float) 2.0 0.1 0.2 3.0 0.3 0.25)\n'
@@ -1006,6 +1284,8 @@ open SelfTest ChemModel
     got2 = [bits(x) for x in vals[7].strip('[]').split(',')]
     assert close(got2[0], 2 * want_cstr[0]) and close(got2[1], want_cstr[2]), (got2, want_cstr)
     assert vals[8].replace(' ', '') == '[(3:Rat)/2,(-1:Rat)/500,3]', vals[8]
+    assert vals[10] == '(16, (96 : Rat)/5, true, false, ["far [UserWarning, stacklevel=2]"])', vals[10]
+    assert vals[11] == '10', vals[11]
     print('selftest: %d defs compiled, Float/Rat evaluations agree with Python (%s)' % (len(parts) - 1, p))
     if real:
         subprocess.run(['lake', 'build', 'ChemModel.Proofs.NumReal'], cwd=lean_dir, stdout=subprocess.PIPE, stderr=subprocess.STDOUT)
